@@ -32,7 +32,8 @@ package udp
 //@ invariant (l *listener) keyed: l.conns != nil && (forall k string :: {k in l.conns} (k in l.conns) ==> l.conns[k] != nil && l.conns[k].rAddr != nil && addrStr[ref(l.conns[k].rAddr)] == k && l.conns[k].buffer != nil &&
 //@            l.conns[k].reg && l.conns[k].ever && l.conns[k].listener == l)
 //@ invariant (l *listener) uniq: forall x *Conn :: {x.reg} x != nil && x.reg && x.listener == l ==> (addrStr[ref(x.rAddr)] in l.conns) && l.conns[addrStr[ref(x.rAddr)]] == x
-//@ rely (l *listener) holder.mono: forall x *Conn :: {x.ever} old(x.ever) ==> x.ever
+// (objects that did not exist at the earlier state are not constrained: a new Conn starts with ever == false)
+//@ rely (l *listener) holder.mono: forall x *Conn :: {x.ever} old(allocated(x)) && old(x.ever) ==> x.ever
 //@ invariant (l *listener) live: forall x *Conn :: {x.ever} x != nil && x.ever && x.listener == l && !x.gone ==> x.reg
 //@ ghost global dispN mathint
 //@ ghost global dispBuf mathint
